@@ -12,7 +12,7 @@ def na(pid, reason):
 exec(open(os.path.join(HERE, "tools", "manifest_table.py")).read())
 m = {
     "version": 1,
-    "setup_cmd": "cd /verif && CARGO_NET_OFFLINE=true cargo build --release --offline --manifest-path driver/Cargo.toml && ./check --extract ws",
+    "setup_cmd": "cd /verif && CARGO_NET_OFFLINE=true cargo +nightly build --release --offline --manifest-path driver/Cargo.toml && ./check --extract ws",
     "hooks": {"guard": "aldrin_verif", "enable": "none needed: the driver analyses the real build (RUSTC_WORKSPACE_WRAPPER under cargo +nightly check); no source hooks exist", "baseline_off_cmd": "cd /repo && cargo test --workspace --no-fail-fast --offline", "source_commits": [], "add_only": True},
     "engines": [
         {"name": "facts-driver", "path": "driver/", "serves_properties": sorted(CHECKS), "kind_free_text": "rustc_private driver: dumps ADTs, impls and pre-coroutine MIR (resolved callees, const generics) of every workspace crate as JSON"},
